@@ -17,7 +17,7 @@ VERIF = os.path.dirname(os.path.dirname(os.path.abspath(__file__)))
 SPEC = os.path.join(VERIF, "spec")
 HARNESS = os.path.join(VERIF, "harness")
 WORK = os.path.join(VERIF, "work")
-EVID = os.path.join(VERIF, "evidence")
+EVID = os.environ.get("VERIF_EVIDENCE_DIR") or os.path.join(VERIF, "evidence")   # (mutant evaluations write elsewhere)
 REPLAYS = os.path.join(VERIF, "replays")
 REPO = "/repo"
 TLA_JAR = "/opt/veriftools/tla/tla2tools.jar"
@@ -178,6 +178,38 @@ def tlc_mc(spec, cfg, name, workers=4, timeout=1800, xmx="4g", env_extra=None, e
         (spec, cfg, "ok" if ok else "VIOLATED", gen, dist, time.time() - t0))
     return {"ok": ok, "generated": gen, "distinct": dist, "out": out,
             "wall_s": round(time.time() - t0, 2)}
+
+
+def apalache_laws(spec, inv, name, timeout=600):
+    """Apalache (symbolic, unbounded integers): `inv` holds in every initial state of spec/apalache/<spec>,
+    i.e. for ALL values of the constant-like variables.  Returns a coverage record; absence or failure of
+    the tool only downgrades the evidence (the TLC checks stand on their own) - except a reported
+    counterexample, which means the reference laws themselves are wrong: ToolError."""
+    exe = shutil.which("apalache-mc")
+    rec = {"tool": "apalache", "spec": "apalache/" + spec, "inv": inv, "ran": False}
+    if not exe:
+        rec["note"] = "apalache-mc not found"
+        return rec
+    od = workdir("apa-" + name)
+    t0 = time.time()
+    try:
+        r = subprocess.run(["timeout", str(timeout), exe, "check", "--init=Init", "--next=Next", "--inv=" + inv,
+                            "--length=0", "--out-dir=" + od, os.path.join(SPEC, "apalache", spec)],
+                           stdout=subprocess.PIPE, stderr=subprocess.STDOUT, text=True, cwd=od)
+        out = r.stdout
+    finally:
+        cleanup(od)
+    rec["wall_s"] = round(time.time() - t0, 1)
+    if "The outcome is: NoError" in out:
+        rec.update(ran=True, ok=True)
+        log("[apalache] %s %s: holds for all values in %.1fs" % (spec, inv, rec["wall_s"]))
+    elif "The outcome is: Error" in out or "violat" in out.lower():
+        log(out[-2000:])
+        raise ToolError("Apalache: %s violates %s (the reference laws are wrong)" % (spec, inv))
+    else:
+        rec["note"] = "no verdict (rc=%d)" % r.returncode
+        log("[apalache] %s %s: no verdict (rc=%d)" % (spec, inv, r.returncode))
+    return rec
 
 
 def tlc_prints(out, tag):
